@@ -102,7 +102,7 @@ def item_for(index: int) -> dict[str, Any]:
     flags = corpus.step_flags(c, 0)
     if index % 4 == 0 and "--pretty" not in flags:
         flags = flags + ["--pretty"]  # source snippets + caret lines: position handling on damaged text
-    return {"index": index, "case": c["file"] + "::" + c["name"], "files": c["steps"][0], "flags": flags, "appear": index % 3 == 1 and target != "main.py",
+    return {"index": index, "case": c["file"] + "::" + c["name"], "files": c["steps"][0], "flags": flags, "appear": index % 3 != 0 and target != "main.py",
             "argv": corpus.step_argv(c, 0), "target": target, "op": OPERATORS[oi], "sector": SECTORS[si], "pos": pos,
             "mutated": mutate(c["steps"][0][target], other, OPERATORS[oi], SECTORS[si], pos)}
 
